@@ -371,3 +371,79 @@ Proof.
     + rewrite get_update_other by exact Hne. apply Hcur. tauto.
   - intros x [->|Hx]; apply Hdone; [now left | right; now apply Hex].
 Qed.
+
+(* ---------- the dependencies recorded by complete ---------- *)
+
+Lemma in_complete_deps : forall e k rl r bk v d,
+  In d (res_deps (complete_row e k rl r bk v)) <->
+  In d (requested_deps rl bk) \/ In d (map (fun x => mkDep x false false) (r_disc rl)).
+Proof.
+  intros e k rl r bk v d. cbn [complete_row res_deps]. rewrite in_app_iff.
+  pose proof (Horder e k (requested_deps rl bk)) as Hp. split; intros [H|H]; auto; left.
+  - eapply Permutation_in; [apply Permutation_sym; exact Hp | exact H].
+  - eapply Permutation_in; [exact Hp | exact H].
+Qed.
+
+Lemma in_requested_deps : forall rl bk d, In d (requested_deps rl bk) <->
+  (exists x, In x (r_req rl) /\ d = mkDep x false false) \/ (exists x, In x (r_single rl) /\ d = mkDep x false true) \/
+  (exists x, In x (r_follow rl) /\ d = mkDep x true false) \/ (exists x, In x bk /\ d = mkDep x false false).
+Proof.
+  intros rl bk d. unfold requested_deps. rewrite !in_app_iff, !in_map_iff.
+  split.
+  - intros [H|[H|[H|H]]]; destruct H as [x [Hx1 Hx2]]; [left|right;left|right;right;left|right;right;right];
+      exists x; (split; [exact Hx2 | symmetry; exact Hx1]).
+  - intros [H|[H|[H|H]]]; destruct H as [x [Hx1 Hx2]]; [left|right;left|right;right;left|right;right;right];
+      exists x; (split; [symmetry; exact Hx2 | exact Hx1]).
+Qed.
+
+Lemma complete_cdeps_keys : forall e k rl r bk v d, In d (cdeps (complete_row e k rl r bk v)) ->
+  In (d_key d) (r_req rl ++ bk ++ r_disc rl).
+Proof.
+  intros e k rl r bk v d Hd. apply in_cdeps in Hd. destruct Hd as (Hin & Ho & Hs).
+  apply in_complete_deps in Hin. rewrite !in_app_iff. destruct Hin as [Hin|Hin].
+  - apply in_requested_deps in Hin. destruct Hin as [H|[H|[H|H]]]; destruct H as [x [Hx ->]]; cbn in *;
+      try discriminate; tauto.
+  - apply in_map_iff in Hin. destruct Hin as [x [<- Hx]]. cbn. tauto.
+Qed.
+
+Lemma complete_inputs_recorded : forall e k rl r bk v x, In x (r_req rl ++ bk ++ r_disc rl) ->
+  In (mkDep x false false) (cdeps (complete_row e k rl r bk v)).
+Proof.
+  intros e k rl r bk v x Hx. apply in_cdeps. split; [|split; reflexivity].
+  apply in_complete_deps. rewrite !in_app_iff in Hx. destruct Hx as [Hx|[Hx|Hx]].
+  - left. apply in_requested_deps. left. now exists x.
+  - left. apply in_requested_deps. right; right; right. now exists x.
+  - right. apply in_map_iff. now exists x.
+Qed.
+
+Lemma complete_deps_mentioned : forall e k rl r bk v d, (forall x, In x bk -> In x (br_keys rl)) ->
+  In d (res_deps (complete_row e k rl r bk v)) -> In (d_key d) (mentioned rl).
+Proof.
+  intros e k rl r bk v d Hbk Hin. apply in_mentioned. apply in_complete_deps in Hin. destruct Hin as [Hin|Hin].
+  - apply in_requested_deps in Hin. destruct Hin as [H|[H|[H|H]]]; destruct H as [x [Hx ->]]; cbn; auto.
+    right; right; right; left. now apply Hbk.
+  - apply in_map_iff in Hin. destruct Hin as [x [<- Hx]]. cbn. tauto.
+Qed.
+
+(* L5: all discovered dependencies are complete: the window of k closes *)
+Lemma Good_close : forall E s k r v,
+  let bk := branch_keys (rules k) (map cvk (r_req (rules k))) in
+  G (fun x => x = k \/ E x) s ->
+  get (st_mem s) k = complete_row (st_epoch s) k (rules k) r bk v ->
+  Some v = cvk k ->
+  (forall x, In x (r_req (rules k) ++ bk ++ r_disc (rules k)) -> done s x) ->
+  G E s.
+Proof.
+  intros E s k r v bk (Hbnd & Hsync & Hrows & Hcl & Hcur & Hex) Hr Hv Hdone.
+  unfold Good. repeat apply conj; auto.
+  - intros x Hx. destruct (N.eq_dec x k) as [->|Hne]; [|apply Hrows; tauto].
+    rewrite Hr. intros _ _. exists v. split; [reflexivity|]. split; [|split].
+    + intros Ho. rewrite cvk_value in Hv. inversion Hv. cbn. unfold obs. now rewrite Ho.
+    + intros d Hd. apply in_drop_single in Hd. destruct Hd as [Hd _].
+      apply complete_deps_mentioned in Hd; [exact Hd|]. intros y. apply branch_keys_incl.
+    + intros _. apply concl_of_clean; auto. intros y Hy. now apply complete_inputs_recorded.
+  - intros x Hx Hdx d Hd. destruct (N.eq_dec x k) as [->|Hne]; [|apply (Hcl x); tauto].
+    rewrite Hr in Hd. apply complete_cdeps_keys in Hd. now apply Hdone.
+Qed.
+
+End St.
